@@ -225,8 +225,28 @@ func c05Property(t *rapid.T) {
 		}
 		return s
 	}
-	d.a = mk("A", true, rapid.Bool().Draw(t, "a-file"), quickfix.SessionID{BeginString: d.begin, SenderCompID: "AAA", TargetCompID: "BBB"})
-	d.b = mk("B", false, rapid.Bool().Draw(t, "b-file"), quickfix.SessionID{BeginString: d.begin, SenderCompID: "BBB", TargetCompID: "AAA"})
+	idA := quickfix.SessionID{BeginString: d.begin, SenderCompID: "AAA", TargetCompID: "BBB"}
+	idB := quickfix.SessionID{BeginString: d.begin, SenderCompID: "BBB", TargetCompID: "AAA"}
+	if rapid.IntRange(0, 2).Draw(t, "identity-with-optional-fields") == 0 {
+		// mirrored optional identity fields (part of the store key, stamped on every header)
+		idA.SenderSubID, idA.SenderLocationID, idA.TargetSubID, idA.Qualifier = "DESK7", "NY", "GW", "q1"
+		idB.TargetSubID, idB.TargetLocationID, idB.SenderSubID, idB.Qualifier = "DESK7", "NY", "GW", "q2"
+		c.Class("identity-with-optional-fields")
+	}
+	d.a = mk("A", true, rapid.Bool().Draw(t, "a-file"), idA)
+	d.b = mk("B", false, rapid.Bool().Draw(t, "b-file"), idB)
+	for _, sd := range []*duoSide{d.a, d.b} {
+		if rapid.IntRange(0, 2).Draw(t, sd.name+"-refresh-on-logon") == 0 {
+			sd.cfg.Settings["RefreshOnLogon"] = "Y"
+			c.Class("setting:RefreshOnLogon")
+		}
+		if rapid.IntRange(0, 3).Draw(t, sd.name+"-lastmsgseqnumprocessed") == 0 {
+			sd.cfg.Settings["EnableLastMsgSeqNumProcessed"] = "Y"
+		}
+		if p := rapid.SampledFrom([]string{"", "", "SECONDS", "MICROS", "NANOS"}).Draw(t, sd.name+"-timestampprecision"); p != "" {
+			sd.cfg.Settings["TimeStampPrecision"] = p
+		}
+	}
 	d.newRig(d.a)
 	d.newRig(d.b)
 	defer func() {
